@@ -106,6 +106,16 @@ class _Patch:
         self.saved.clear()
 
 
+def _alloc_new(cls, *a, **k):
+    """__new__ of registered heap classes during symbolic runs: a fresh reference (alloc+1), then
+    the real __init__ runs on the proxy.  type.__call__ skips __init__ for non-instances."""
+    if not _ctx.active():
+        return object.__new__(cls)
+    p = new_object(cls)
+    cls.__init__(p, *a, **k)
+    return p
+
+
 def make_stub(contract):
     """Replace a callee by its contract: assert requires, havoc modifies (of self only),
     assume ensures.  Generator contracts become a one-yield generator (one havoc point)."""
@@ -377,7 +387,20 @@ def run_task(contract, timeout_s=600, keep_smt=0, dry=False):
             cc = _spec.CONTRACTS.get((o, n))
             if cc is None:
                 raise SpecError(f"{contract.qualname}: uses unknown contract {o}.{n}")
-            patch.set(o, n, make_stub(cc))
+            st = make_stub(cc)
+            if isinstance(o, type):
+                for kk in o.__mro__:
+                    if n in kk.__dict__:
+                        if isinstance(kk.__dict__[n], property):
+                            st = property(st)
+                        elif isinstance(kk.__dict__[n], staticmethod):
+                            st = staticmethod(st)
+                        break
+            patch.set(o, n, st)
+        # instances of registered heap classes created by the code become fresh symbolic objects
+        for kcls, ci in list(REG.classes.items()):
+            if getattr(ci, "alloc", True) and "__new__" not in kcls.__dict__:
+                patch.set(kcls, "__new__", staticmethod(_alloc_new))
         n_smt = [0]
 
         def run(c):
